@@ -32,7 +32,7 @@ def append(val: str, arg: object) -> str:
     If _arg_ is not a string, it will be converted to one before concatenation.
     """
     if not isinstance(arg, str):
-        arg = str(arg)
+        arg = to_liquid_string(arg)
     return val + arg
 
 
@@ -181,7 +181,7 @@ def slice_(val: Any, start: Any, length: Any = 1) -> str | list[object]:
     cast to a string before returning a substring.
     """
     if not isinstance(val, Sequence):
-        val = str(val)
+        val = to_liquid_string(val)
 
     if is_undefined(start):
         raise LiquidTypeError(
@@ -271,7 +271,7 @@ def truncate(val: str, num: Any = 50, end: str = "...") -> str:
             token=None,
         ) from err
 
-    end = str(end)
+    end = to_liquid_string(end)
     return truncate_chars(val, num, end)
 
 
@@ -295,7 +295,7 @@ def truncatewords(val: str, num: Any = 15, end: str = "...") -> str:
             token=None,
         ) from err
 
-    end = str(end)
+    end = to_liquid_string(end)
 
     # Force a minimum `num` of 1.
     if num <= 0:
